@@ -671,7 +671,14 @@ def c08_families(rng, tier):
     val += [l.replace("x ", "shiftinv 6 ", 1) for l in made_hands(rng, 6, n // 10, "x")]
     val += [l.replace("x ", "shiftinv 7 ", 1) for l in made_hands(rng, 7, n // 10, "x")]
     val += [l.replace("x", "shiftinv", 1) for l in row_targeted(rng, 6, "x 6") + row_targeted(rng, 7, "x 7")]
-    return sweeps(rng, tier, lambda k: "shiftinv %d" % k, "1 1 1 1 1 1 1", "C08_shift_invariant + C08_cycle + C04_validated",
+    rel = [line("relabel %d" % (5 + j % 3), rand_hand(rng, 5 + j % 3)) for j in range(600)]
+    rel += [l.replace("x ", "relabel 6 ", 1) for l in made_hands(rng, 6, 150, "x")] + [l.replace("x ", "relabel 7 ", 1) for l in made_hands(rng, 7, 150, "x")]
+    return sweeps(rng, tier, lambda k: "relabel %d" % k, "1 1", "C08_relabel_invariant + C10_create + C10_accessors + C04_validated",
+                  "value and validated value identical under all 24 relabellings of the four suits (cards rebuilt through the accessors "
+                  "and create)", sizes=(5, 6, 7), name="relabel", quick_strides={5: (1, 4, 4), 6: (8, 32, 32), 7: (64, 256, 256)},
+                  thorough_stride={7: 4}) + [
+        fam("relabel_projection", rel, "the projection the relabelling sweeps use, on model and implementation", pinned=True)] + \
+        sweeps(rng, tier, lambda k: "shiftinv %d" % k, "1 1 1 1 1 1 1", "C08_shift_invariant + C08_cycle + C04_validated",
                   "value and validated value unchanged by one, two and three shifts; four shifts restore the hand",
                   sizes=(5, 6, 7), name="shiftinv") + [
         fam("shift_card", ["shift %d" % w for w in DECK + [0]], "shift_suit on all 52 cards and blank", exhaustive=True, pinned=True),
@@ -851,6 +858,11 @@ def c14_families(rng, tier):
             "graph is regenerated into Gen/Scan.v on every run)", categories=wc, pinned=True),
         fam("from_bc_single_bits", ["frombc %d" % b for b in bs + [0]], "from_binary_card on all 64 single bits and 0", exhaustive=True, pinned=True),
         fam("from_bc_two_bits", ["frombc %d" % b for b in two], "from_binary_card on all 2,016 two-bit values", exhaustive=True, pinned=True),
+        fam("from_bc_three_bits", ["frombc %d" % ((1 << i) | (1 << j) | (1 << k)) for i in range(64) for j in range(i) for k in range(j)],
+            "from_binary_card on all 41,664 three-bit values", exhaustive=True, profiles=["release"], pinned=True),
+        fam("from_bc_bit_complements", ["frombc %d" % (((1 << 64) - 1) ^ b) for b in bs + two] + ["frombc %d" % (((1 << 52) - 1) ^ b) for b in bs[:52]],
+            "from_binary_card on the complements of all one- and two-bit values (in 64 bits) and of every card bit within the 52 card bits",
+            exhaustive=True, profiles=["release"], pinned=True),
         fam("from_bc_seeded", ["frombc %d" % b for b in rnd], "seeded u64 of every magnitude and sparse values of 1..4 bits", pinned=True),
     ]
 
